@@ -307,8 +307,23 @@ def prologue_check(ctx, rule):
 
 def run(ctx):
     M = ctx.model
+    # operators defined by a loop over a table (setattr(cls, name, lambda ...: BinExpr(op, ...))): each function must bind its own operator
+    no_loop_variable_capture(ctx, "C11.R1")
     opn, dnode = extract_opnames(M)
     mix = M.cls("ExprMixin")
+    # the table of aliases this check uses (sa/tables.py: operator.div means operator.truediv) is what the module itself establishes: every
+    # module-level assignment to an attribute of `operator` in expr.py binds the alias to the function the table says
+    nshim = 0
+    for st in ast.walk(M.modules[EXPR]):
+        if isinstance(st, ast.Assign) and len(st.targets) == 1 and isinstance(st.targets[0], ast.Attribute) and isinstance(st.targets[0].value, ast.Name) and st.targets[0].value.id == "operator":
+            nshim += 1
+            alias = st.targets[0].attr
+            v = st.value
+            ok = isinstance(v, ast.Attribute) and isinstance(v.value, ast.Name) and v.value.id == "operator" and OPERATOR_ALIASES.get(alias) == v.attr
+            ctx.ob("C11.R1", "operator.%s" % alias, ok, "expr.py binds operator.%s to operator.%s (the Python 3 meaning of the operator the dunders name)" % (alias, OPERATOR_ALIASES.get(alias, "?")),
+                   key="operator alias %s" % alias, loc="%s:%d" % (EXPR, st.lineno))
+    if "div" in {OPERATOR_ALIASES.get(k, k) and k for k in opn} and nshim == 0:
+        ctx.error("C11.R1: expr.py uses operator.div but no longer defines it at module level")
 
     # ---------------------------------------------------------------- R1
     opterm = lambda name: ("attr", ("free", "operator"), name)
